@@ -1,4 +1,4 @@
-import Swim.Lemmas.Merge
+import Swim.Props.C01
 /-!
 # C02  A running node always defends itself: refutation outranks every accusation
 -/
@@ -124,5 +124,306 @@ theorem C02_alive_refuted (n : Node) (a : AliveMsg) (nt : Bool) (env : Env) (me 
 /-- self invariant: the local record exists and is alive, unless Leave was called -/
 def SelfOk (n : Node) : Prop :=
   ∃ me, lookup n.recs n.cfg.self = some me ∧ (n.hasLeft = false → me.st = .alive)
+
+theorem refute_selfOk (n : Node) (me : Rec) (acc : Nat) (hme : lookup n.recs n.cfg.self = some me)
+    (hal : n.hasLeft = false → me.st = .alive) : SelfOk (refute n me acc).1 := by
+  have hn := lookup_name hme
+  refine ⟨{ me with inc := refuteInc n.selfInc acc }, ?_, hal⟩
+  simp only [refute]
+  have : ({ me with inc := refuteInc n.selfInc acc } : Rec).name = n.cfg.self := hn
+  rw [← this]; exact lookup_setRec_self _ _ (by rw [this, hme]; rfl)
+
+/-- **self_inv (suspect).** -/
+theorem C02_suspect_selfOk (n : Node) (s : Claim) (env : Env) (h : SelfOk n) : SelfOk (suspectNode n s env).1 := by
+  obtain ⟨me, hme, hal⟩ := h
+  by_cases hs : s.node = n.cfg.self
+  · unfold suspectNode
+    simp only [hs, hme]
+    by_cases h1 : s.inc < me.inc
+    · simp only [h1, ↓reduceIte]; exact ⟨me, hme, hal⟩
+    · simp only [h1, ↓reduceIte]
+      cases ht : n.timers.find? (·.node == n.cfg.self) with
+      | some t =>
+        simp only
+        cases hc : (t.confirm s.frm).2 <;> simp only [↓reduceIte, Bool.false_eq_true] <;> exact ⟨me, hme, hal⟩
+      | none =>
+        simp only
+        by_cases h2 : (me.st != St.alive) = true
+        · simp only [h2, ↓reduceIte]; exact ⟨me, hme, hal⟩
+        · have hn := lookup_name hme
+          simp only [h2, Bool.false_eq_true, ↓reduceIte, hn, beq_self_eq_true]
+          exact refute_selfOk n me s.inc hme hal
+  · have hfr := C01_suspect_frame n s env n.cfg.self (fun e => hs e.symm)
+    have hcfg : (suspectNode n s env).1.cfg = n.cfg ∧ (suspectNode n s env).1.hasLeft = n.hasLeft := by
+      unfold suspectNode
+      cases lookup n.recs s.node with
+      | none => exact ⟨rfl, rfl⟩
+      | some state =>
+        simp only
+        split
+        · exact ⟨rfl, rfl⟩
+        · cases n.timers.find? (·.node == s.node) with
+          | some t => simp only; split <;> exact ⟨rfl, rfl⟩
+          | none =>
+            simp only
+            split
+            · exact ⟨rfl, rfl⟩
+            · split <;> exact ⟨rfl, rfl⟩
+    refine ⟨me, ?_, ?_⟩
+    · rw [hcfg.1, hfr]; exact hme
+    · rw [hcfg.2]; exact hal
+
+/-- **self_inv (dead).** A dead claim about the running local node is refuted; the record can only
+become left (never dead, never suspect) and only after Leave was called. -/
+theorem C02_dead_selfOk (n : Node) (d : Claim) (env : Env) (h : SelfOk n) : SelfOk (deadNode n d env).1 := by
+  obtain ⟨me, hme, hal⟩ := h
+  by_cases hs : d.node = n.cfg.self
+  · unfold deadNode
+    simp only [hs, hme]
+    by_cases h1 : d.inc < me.inc
+    · simp only [h1, ↓reduceIte]; exact ⟨me, hme, hal⟩
+    · simp only [h1, ↓reduceIte]
+      by_cases h2 : me.st.deadOrLeft = true
+      · simp only [h2, ↓reduceIte]; exact ⟨me, hme, hal⟩
+      · have hn := lookup_name hme
+        simp only [h2, Bool.false_eq_true, ↓reduceIte, hn, beq_self_eq_true, Bool.true_and]
+        cases h3 : n.hasLeft
+        · simp only [Bool.not_false, ↓reduceIte]
+          have := refute_selfOk { n with timers := delTimer n.timers n.cfg.self } me d.inc hme (by simpa using hal)
+          rw [h3] at this
+          exact this
+        · simp only [Bool.not_true, Bool.false_eq_true, ↓reduceIte]
+          generalize hst' : (if (n.cfg.self == d.frm) = true then St.left else St.dead) = st'
+          have hnm : ({ me with inc := d.inc, st := st', changed := some env.now } : Rec).name = n.cfg.self := hn
+          refine ⟨{ me with inc := d.inc, st := st', changed := some env.now }, ?_, ?_⟩
+          · show lookup (setRec n.recs _) n.cfg.self = _
+            rw [← hnm]; exact lookup_setRec_self _ _ (by rw [hnm, hme]; rfl)
+          · intro hf; cases hf
+  · have hfr := C01_dead_frame n d env n.cfg.self (fun e => hs e.symm)
+    have hcfg : (deadNode n d env).1.cfg = n.cfg ∧ (deadNode n d env).1.hasLeft = n.hasLeft := by
+      unfold deadNode
+      cases lookup n.recs d.node with
+      | none => exact ⟨rfl, rfl⟩
+      | some state =>
+        simp only
+        split
+        · exact ⟨rfl, rfl⟩
+        · split
+          · exact ⟨rfl, rfl⟩
+          · split <;> exact ⟨rfl, rfl⟩
+    refine ⟨me, ?_, ?_⟩
+    · rw [hcfg.1, hfr]; exact hme
+    · rw [hcfg.2]; exact hal
+
+def AliveDec.isNew : AliveDec → Bool
+  | .stubOnly => true
+  | .delTimerOnly b => b
+  | .refuteSelf b => b
+  | .accept b => b
+  | _ => false
+
+/-- a claim about a member the node already holds never goes through the "new member" paths -/
+theorem aliveDecide_known (n : Node) (a : AliveMsg) (b : Bool) (env : Env) (r : Rec)
+    (hr : lookup n.recs a.node = some r) : (aliveDecide n a b env).isNew = false := by
+  unfold aliveDecide
+  by_cases h1 : (n.hasLeft && a.node == n.cfg.self) = true
+  · simp [h1, AliveDec.isNew]
+  · by_cases h2 : vsnBad a.vsn = true
+    · simp [h1, h2, AliveDec.isNew]
+    · by_cases h3 : (n.cfg.hasAliveDelegate && (a.vsn.length < 6 || !env.delegateOk)) = true
+      · simp [h1, h2, h3, AliveDec.isNew]
+      · simp only [h1, h2, h3, Bool.false_eq_true, ↓reduceIte, hr]
+        have hk : ∀ upd, (decideKnown n a b r upd false).isNew = false := by
+          intro upd
+          unfold decideKnown
+          simp only
+          split
+          · rfl
+          · split
+            · rfl
+            · split
+              · split <;> rfl
+              · rfl
+        by_cases h5 : (r.addr != a.addr || r.port != a.port) = true
+        · simp only [h5, ↓reduceIte]
+          by_cases h4 : env.ipAllowed = true
+          · simp only [h4, Bool.not_true, Bool.false_eq_true, ↓reduceIte]
+            split
+            · exact hk true
+            · rfl
+          · simp [h4, AliveDec.isNew]
+        · simp only [h5, Bool.false_eq_true, ↓reduceIte]
+          exact hk false
+
+theorem aliveApply_cfg (n : Node) (a : AliveMsg) (nt : Bool) (env : Env) (dec : AliveDec) :
+    (aliveApply n a nt env dec).1.cfg = n.cfg ∧ (aliveApply n a nt env dec).1.hasLeft = n.hasLeft := by
+  cases dec with
+  | ignore => exact ⟨rfl, rfl⟩
+  | conflict => exact ⟨rfl, rfl⟩
+  | stubOnly => exact ⟨rfl, rfl⟩
+  | delTimerOnly isNew => cases isNew <;> exact ⟨rfl, rfl⟩
+  | refuteSelf isNew => cases isNew <;> exact ⟨rfl, rfl⟩
+  | accept isNew => cases isNew <;> exact ⟨rfl, rfl⟩
+
+/-- **self_inv (alive).** No alive claim - about the node itself or anyone else, by any path - makes the
+local record anything but alive. -/
+theorem C02_alive_selfOk (n : Node) (a : AliveMsg) (nt b : Bool) (env : Env) (h : SelfOk n) :
+    SelfOk (aliveNode n a nt b env).1 := by
+  obtain ⟨me, hme, hal⟩ := h
+  have hcfg := aliveApply_cfg n a nt env (aliveDecide n a b env)
+  by_cases hs : a.node = n.cfg.self
+  · -- a claim about ourselves: the record is known, so no stub is involved
+    have hn := lookup_name hme
+    unfold aliveNode at hcfg ⊢
+    cases hd : aliveDecide n a b env with
+    | ignore => exact ⟨me, hme, hal⟩
+    | conflict => exact ⟨me, hme, hal⟩
+    | stubOnly =>
+      have := aliveDecide_known n a b env me (by rw [hs]; exact hme)
+      rw [hd] at this; cases this
+    | delTimerOnly isNew =>
+      have hisNew : isNew = false := by
+        have := aliveDecide_known n a b env me (by rw [hs]; exact hme)
+        rw [hd] at this; exact this
+      subst hisNew
+      rw [hd] at hcfg
+      refine ⟨me, ?_, ?_⟩
+      · rw [hcfg.1]; simpa [aliveApply] using hme
+      · rw [hcfg.2]; exact hal
+    | refuteSelf isNew =>
+      have hisNew : isNew = false := by
+        have := aliveDecide_known n a b env me (by rw [hs]; exact hme)
+        rw [hd] at this; exact this
+      subst hisNew
+      simp only [aliveApply, Bool.false_eq_true, ↓reduceIte, hs, hme, Option.getD_some]
+      have := refute_selfOk { n with timers := delTimer n.timers n.cfg.self } me a.inc hme hal
+      -- the join event that may follow a refutation does not touch the state
+      exact this
+    | accept isNew =>
+      have hisNew : isNew = false := by
+        have := aliveDecide_known n a b env me (by rw [hs]; exact hme)
+        rw [hd] at this; exact this
+      subst hisNew
+      simp only [aliveApply, Bool.false_eq_true, ↓reduceIte, hs, hme, Option.getD_some]
+      have hnm : (acceptRec me a env).name = n.cfg.self := by simp [acceptRec, hn]
+      refine ⟨acceptRec me a env, ?_, fun _ => rfl⟩
+      show lookup (setRec n.recs _) n.cfg.self = _
+      rw [← hnm]; exact lookup_setRec_self _ _ (by rw [hnm, hme]; rfl)
+  · have hfr := C01_alive_frame n a nt b env n.cfg.self (fun e => hs e.symm)
+    unfold aliveNode at hfr hcfg ⊢
+    refine ⟨me, ?_, ?_⟩
+    · rw [hcfg.1, hfr]; exact hme
+    · rw [hcfg.2]; exact hal
+
+theorem C02_mergeOne_selfOk (n : Node) (r : PushState) (now : Nat) (h : SelfOk n) : SelfOk (mergeOne n r now).1 := by
+  unfold mergeOne
+  cases r.st
+  · exact C02_alive_selfOk n _ false false _ h
+  · exact C02_suspect_selfOk n _ _ h
+  · exact C02_suspect_selfOk n _ _ h
+  · exact C02_dead_selfOk n _ _ h
+
+theorem C02_merge_selfOk (n : Node) (rs : List PushState) (now : Nat) (h : SelfOk n) :
+    SelfOk (mergeState n rs now).1 := by
+  unfold mergeState
+  suffices hh : ∀ (acc : Node × List Out), SelfOk acc.1 →
+      SelfOk (rs.foldl (fun (acc : Node × List Out) r => ((mergeOne acc.1 r now).1, acc.2 ++ (mergeOne acc.1 r now).2)) acc).1 by
+    exact hh (n, []) h
+  induction rs with
+  | nil => intro acc ha; exact ha
+  | cons r rs ih => intro acc ha; exact ih _ (C02_mergeOne_selfOk acc.1 r now ha)
+
+theorem lookup_filter_keep (recs : List Rec) (p : Rec → Bool) (y : String) (r : Rec)
+    (hr : lookup recs y = some r) (hp : p r = true) : lookup (recs.filter p) y = some r := by
+  induction recs with
+  | nil => simp [lookup] at hr
+  | cons x xs ih =>
+    simp only [lookup, List.find?_cons] at hr
+    by_cases hx : (x.name == y) = true
+    · simp only [hx] at hr
+      have : x = r := Option.some.inj hr
+      subst this
+      simp [lookup, List.filter_cons, hp, hx]
+    · simp only [hx] at hr
+      have ih' := ih hr
+      by_cases hpx : p x = true
+      · simp only [lookup, List.filter_cons, hpx, ↓reduceIte, List.find?_cons, hx] at ih' ⊢
+        exact ih'
+      · simp only [lookup, List.filter_cons, hpx, Bool.false_eq_true, ↓reduceIte] at ih' ⊢
+        exact ih'
+
+theorem C02_reap_selfOk (n : Node) (h : SelfOk n) : SelfOk (reap n) := by
+  obtain ⟨me, hme, hal⟩ := h
+  have hn := lookup_name hme
+  refine ⟨me, ?_, hal⟩
+  simp only [reap]
+  exact lookup_filter_keep n.recs _ n.cfg.self me hme (by simp [hn])
+
+theorem C02_fire_selfOk (n : Node) (node : String) (ca : Nat) (env : Env) (h : SelfOk n) :
+    SelfOk (timerFire n node ca env).1 := by
+  unfold timerFire
+  cases lookup n.recs node with
+  | none => exact h
+  | some state =>
+    simp only
+    split
+    · exact C02_dead_selfOk n _ env h
+    · exact h
+
+theorem C02_update_selfOk (n : Node) (ad p md : Nat) (vsn : List Nat) (nt : Bool) (env : Env) (h : SelfOk n) :
+    SelfOk (updateNode n ad p md vsn nt env).1 := by
+  unfold updateNode
+  exact C02_alive_selfOk _ _ nt true env h
+
+theorem C02_leave_selfOk (n : Node) (env : Env) (h : SelfOk n) : SelfOk (leave n env).1 := by
+  unfold leave
+  split
+  · exact h
+  · obtain ⟨me, hme, _⟩ := h
+    simp only [hme]
+    exact C02_dead_selfOk { n with hasLeft := true } _ env ⟨me, hme, fun hf => by cases hf⟩
+
+theorem lookup_map_namePreserving (recs : List Rec) (f : Rec → Rec) (hf : ∀ r, (f r).name = r.name) (y : String) :
+    lookup (recs.map f) y = (lookup recs y).map f := by
+  induction recs with
+  | nil => rfl
+  | cons x xs ih =>
+    simp only [lookup, List.map_cons, List.find?_cons, hf] at ih ⊢
+    cases hx : (x.name == y)
+    · simpa using ih
+    · rfl
+
+theorem C02_age_selfOk (n : Node) (name : String) (h : SelfOk n) : SelfOk (ageRec n name) := by
+  obtain ⟨me, hme, hal⟩ := h
+  simp only [SelfOk, ageRec]
+  rw [lookup_map_namePreserving n.recs _ (by intro r; split <;> rfl) n.cfg.self, hme]
+  refine ⟨_, rfl, ?_⟩
+  intro hl
+  have := hal hl
+  simp only
+  by_cases e : (me.name == name) = true <;> simp [e, this]
+
+/-- **self_inv (one step).** Every operation of the model - claims by any path, push/pull merges,
+timer callbacks (current or stale), reaping, UpdateNode, Leave, ageing - keeps the invariant "the
+local record exists and, unless Leave has been called, is alive". -/
+theorem C02_step_selfOk (n : Node) (op : Op) (h : SelfOk n) : SelfOk (step n op).1 := by
+  cases op with
+  | alive a b env => exact C02_alive_selfOk n a false b env h
+  | suspect c env => exact C02_suspect_selfOk n c env h
+  | dead c env => exact C02_dead_selfOk n c env h
+  | merge rs now => exact C02_merge_selfOk n rs now h
+  | fire node ca env => exact C02_fire_selfOk n node ca env h
+  | reap => exact C02_reap_selfOk n h
+  | update a p m v env => exact C02_update_selfOk n a p m v true env h
+  | leave env => exact C02_leave_selfOk n env h
+  | age name => exact C02_age_selfOk n name h
+
+/-- **C02_history.** After any sequence of operations, in any order, a running node that has not
+called Leave lists itself as alive: it never records itself as suspect, dead or left. -/
+theorem C02_history (n : Node) (ops : List Op) (h : SelfOk n) :
+    SelfOk (ops.foldl (fun n op => (step n op).1) n) := by
+  induction ops generalizing n with
+  | nil => exact h
+  | cons op ops ih => exact ih _ (C02_step_selfOk n op h)
 
 end Swim.Merge
